@@ -18,6 +18,11 @@ def run(rep, W, ctx):
     S.s_txn1(rep, W, W.op("get_child_version"))
     S.c08(rep, W)
     S.c03_nostate(rep, W)
+    # "returns that same version id, parent id and payload": the GetChildVersion handler's outcome table
+    from rules import http as H
+    from rules import wiring as WR
+    H.c14_tables(rep, W, modules=("get_child_version",))
+    WR.c13_written(rep, W)          # no storage method other than add_version writes a version
     # C07.NOREWRITE: no statement other than add_version's INSERT writes a column of `versions`
     for i in inst:
         if i.stmt and i.stmt["table"] == "versions" and i.stmt["writes"]:
